@@ -21,9 +21,13 @@ Record command := mkCommand {
 Global Instance oref_eq_dec : EqDecision oref. Proof. solve_decision. Defined.
 
 (* CLI verbs: 1 vcctl job suspend (AbortJob), 2 job resume (ResumeJob),
-   3 queue operate open (OpenQueue), 4 queue operate close (CloseQueue) *)
+   3 / 4 vcctl queue operate open / close (pkg/cli/queue/util.go, namespace "default"),
+   5 / 6 util.CreateQueueCommand with OpenQueue / CloseQueue in a given namespace.
+   Actions: 1 AbortJob, 2 ResumeJob, 3 OpenQueue, 4 CloseQueue. *)
 Definition verb_kind (v : Z) : Z := if v <=? 2 then 1 (* Job *) else 2 (* Queue *).
-Definition verb_action (v : Z) : Z := v.   (* action codes coincide with the verbs *)
+Definition verb_action (v : Z) : Z := if v <=? 4 then v else v - 2.
+(* namespace the Command is created in; 0 stands for "default" *)
+Definition cmd_ns (v ns : Z) : Z := if (v =? 3) || (v =? 4) then 0 else ns.
 
 (* the object the API server returned for GET <kind>/<ns>/<name> *)
 Record target := mkTarget { t_kind : Z; t_ns : Z; t_name : Z; t_uid : Z }.
@@ -31,7 +35,7 @@ Record target := mkTarget { t_kind : Z; t_ns : Z; t_name : Z; t_uid : Z }.
 (* CreateJobCommand / CreateQueueCommand: one Create call *)
 Definition cli_create (v : Z) (ns : Z) (t : target) : list command :=
   let r := mkRef (verb_kind v) (t_name t) (t_uid t) true in
-  [mkCommand ns (t_name t, verb_action v) r [r] (verb_action v)].
+  [mkCommand (cmd_ns v ns) (t_name t, verb_action v) r [r] (verb_action v)].
 
 (* ---------- controllers ---------- *)
 (* answers of the API server to Delete: OK (object was there and is gone), NotFound,
